@@ -6,7 +6,8 @@
    printing macros as explicit state machines over (bytes stored, position, Offset, Result))
    and hnd_get_wellknown_lkd; lf_listing / lf_selected / lf_filter_spec / lf_window are the
    RFC 6690 specification.  LfOob = a read outside an object, LfFuel = loop bound exhausted:
-   the theorems say that neither happens. *)
+   the theorems say that neither happens - for every table: there is no hypothesis on paths, attribute
+   names or values. *)
 From LibcoapV Require Import Base.Tactics Base.Bytes Link.LinkFormat Link.LinkProofs
   Link.FilterProofs Link.WellknownProofs Link.LinkExamples.
 Local Open Scope Z_scope.
@@ -28,7 +29,7 @@ Print Assumptions C20_link_window.
    registration order, the reported total is the length of that listing, the count in the
    status word is the number of bytes written, and the TRUNC bit follows lf_trunc_spec *)
 Theorem C20_wellknown_window : forall rs filter off buflen,
-  lf_table_ok rs = true -> 0 <= off -> 0 <= buflen <= lf_status_max ->
+  0 <= off -> 0 <= buflen <= lf_status_max ->
   lf_print_wellknown rs filter off buflen =
   LfVal {| lf_rstatus := LfDone (len (lf_window off buflen (lf_listing (lf_selected filter rs))))
                                 (lf_trunc_spec off buflen (len (lf_listing (lf_selected filter rs))));
@@ -48,7 +49,7 @@ Print Assumptions C20_trunc_rule.
 
 (* the size probe of the GET handler: an empty buffer reports the exact total *)
 Theorem C20_probe : forall rs filter off,
-  lf_table_ok rs = true -> 0 <= off ->
+  0 <= off ->
   lf_print_wellknown rs filter off 0 =
   LfVal {| lf_rstatus := LfDone 0 (0 <? len (lf_listing (lf_selected filter rs)));
            lf_rbytes := [];
@@ -71,7 +72,6 @@ Print Assumptions C20_match_relation.
    coap_print_wellknown_lkd is lf_filter_spec: href / rt / if / rel / other attributes, exact,
    prefix '*', token-wise, quoted and unquoted and empty values *)
 Theorem C20_filter_spec : forall q r,
-  lf_res_ok r = true ->
   exists f, lf_split_filter true q = LfVal f /\ lf_select true f r = LfVal (lf_filter_spec q r).
 Proof. exact lf_filter_spec_ok. Qed.
 Print Assumptions C20_filter_spec.
@@ -92,7 +92,6 @@ Print Assumptions C20_tokens_equations.
 (* the GET handler (probe, full print into a buffer of the probed size) hands exactly the
    listing to the response *)
 Theorem C20_get_equals_listing : forall rs query,
-  lf_table_ok rs = true ->
   len (lf_listing (lf_selected query rs)) <= lf_status_max ->
   lf_get_wellknown rs query = Lf205 (lf_listing (lf_selected query rs)).
 Proof. exact lf_get_equals_listing. Qed.
@@ -140,6 +139,16 @@ Theorem C20_match_unguarded_refuted :
 Proof. exact lf_match_unguarded_refuted. Qed.
 Print Assumptions C20_match_unguarded_refuted.
 
+(* finding F20e, repaired: a value consisting of one double quote made the old code compute the
+   length 1 - 2 in size_t and read far outside the value (segmentation fault on the real code) *)
+Theorem C20_lone_quote_refuted :
+  exists rs q, lf_table_ok rs = false /\
+    lf_print_wellknown_g false rs (Some q) 0 64 = LfOob /\
+    lf_print_wellknown rs (Some q) 0 64 =
+    LfVal {| lf_rstatus := LfDone 0 false; lf_rbytes := []; lf_rtotal := 0 |}.
+Proof. exact lf_lone_quote_refuted. Qed.
+Print Assumptions C20_lone_quote_refuted.
+
 Theorem C20_split_unguarded_refuted :
   exists q, lf_split_filter false q = LfOob /\ exists f, lf_split_filter true q = LfVal f.
 Proof. exact lf_split_unguarded_refuted. Qed.
@@ -149,7 +158,7 @@ Print Assumptions C20_split_unguarded_refuted.
    probe, full print): the body is the listing restricted by the bytes of the request's
    Uri-Query options (joined by '&'; none: the full listing) *)
 Theorem C20_handle_get : forall rs opts,
-  lf_table_ok rs = true -> Forall wfb opts ->
+  Forall wfb opts ->
   len (lf_listing (lf_selected (lf_raw_query opts) rs)) <= lf_status_max ->
   lf_handle_get rs opts = Lf205 (lf_listing (lf_selected (lf_raw_query opts) rs)).
 Proof. exact lf_handle_get_listing. Qed.
